@@ -18,7 +18,7 @@ package main
 //	e2e (the property): no condition, Model key-less, value not the Model  ⇒ ErrMissingWhereClause, nothing sent, table
 //	  unchanged;  a condition / keyed Model / the value is the keyed Model ⇒ never ErrMissingWhereClause, and no row outside
 //	  {rows named by the condition, the Model's key, the value's key} changes.
-//	tie: the Lean statement machine (Model/Where.lean stmtRun + `fin update valueKey same`, Model/UpdateKeys.lean) —
+//	tie: the Lean statement machine (Model/Where.lean stmtRun + `fin update valueKey same`, Model/UpdateKeysGuard.lean) —
 //	  rejected?, number of WHERE expressions and the soft-delete marker the real statement ends with
 //	  (`res.Statement.Clauses["WHERE"]`), so that a key condition added or lost is seen even where the guard's answer agrees.
 //
